@@ -604,3 +604,62 @@ package xmpp
 //@   ensures t.Config == old(t.Config)
 //@   assigns t.conn, t.closeChan, t.readWriter, t.decoder, t.isSecure
 //@   emits Dialed, Write, TokenRead, ChanRecv, Select, StreamStarted
+
+// ---------------------------------------------------------------------------
+// C03 / C04: negotiation steps. Each step leaves s.err == nil only if the server's confirming reply was read; a ghost
+// event marks the confirmed step so that NewSession can state the order.
+//
+//@ event DecodedElement(v Iface, ok Bool)
+//@ event StartTLSCalled(t Iface, ok Bool)
+//@ event SecureAsked(t Iface, b Bool)
+//@ event TlsDone(s Ref)
+//@ event AuthConfirmed(s Ref)
+//@ event Restarted(s Ref)
+//@ event ResumedOK(s Ref)
+//@ event Bound(s Ref)
+//@ event SessionOpened(s Ref)
+//@ event SMEnabledOK(s Ref)
+//@ func (xmpp.Transport).DoesStartTLS(t) (b)
+//@ func (xmpp.Transport).StartTLS(t) (err)
+//@   emit StartTLSCalled(t, err == nil)
+//@ func (xmpp.Transport).IsSecure(t) (b)
+//@   emit SecureAsked(t, b)
+//
+//@ pred stepSkipped(s) := s.err == old(s.err) && count(Write) == old(count(Write)) && count(PacketRead) == old(count(PacketRead)) && count(Decoded) == old(count(Decoded)) && count(DecodedElement) == old(count(DecodedElement)) && count(StartTLSCalled) == old(count(StartTLSCalled))
+//
+//@ func (*xmpp.Session).startTlsIfSupported(s, o)
+//@   requires s != nil && o != nil && s.transport != nil
+//@   emit TlsDone(s) when old(s.err) == nil && s.err == nil && s.TlsEnabled && !old(s.TlsEnabled)
+//@   ensures [C03.sticky.tls]   old(s.err) != nil ==> stepSkipped(s)
+//@   ensures [C04.tls.request]  count(Write) <= old(count(Write)) + 1 && (count(Write) == old(count(Write)) + 1 ==> old(stanza.tlsOffered(s.Features)) && last(Write, 0) == s.transport && last(Write, 1) == sprintf("<starttls xmlns='urn:ietf:params:xml:ns:xmpp-tls'/>"))
+//@   ensures [C04.tls.order]    count(StartTLSCalled) <= old(count(StartTLSCalled)) + 1 && (count(StartTLSCalled) == old(count(StartTLSCalled)) + 1 ==> last(StartTLSCalled, 0) == s.transport && count(Write) == old(count(Write)) + 1 && count(DecodedElement) == old(count(DecodedElement)) + 1 && last(DecodedElement, 1) && typeof(last(DecodedElement, 0)) == *stanza.TLSProceed && atlast(Write) < atlast(DecodedElement) && atlast(DecodedElement) < atlast(StartTLSCalled))
+//@   ensures [C04.tls.result]   (old(s.err) == nil && s.err == nil && !o.Insecure) ==> count(StartTLSCalled) == old(count(StartTLSCalled)) + 1 && last(StartTLSCalled, 1)
+//@   ensures [C04.tls.enabled]  s.TlsEnabled == (old(s.TlsEnabled) || (count(StartTLSCalled) == old(count(StartTLSCalled)) + 1 && last(StartTLSCalled, 1)))
+//@   ensures s.transport == old(s.transport) && s.Features == old(s.Features)
+//@   assigns s.err, s.TlsEnabled
+//@   emits Write, DecodedElement, StartTLSCalled
+//
+//@ pred iqResultRead(v) := count(Decoded) == old(count(Decoded)) + 1 && last(Decoded, 1) && typeof(last(Decoded, 0)) == *stanza.IQ && last(Decoded, 0).(*stanza.IQ).Type == "result"
+//
+//@ func (*xmpp.Session).bind(s, o)
+//@   requires s != nil && o != nil && s.transport != nil && o.parsedJid != nil
+//@   emit Bound(s) when old(s.err) == nil && s.err == nil
+//@   ensures [C03.sticky.bind] old(s.err) != nil ==> stepSkipped(s) && s.BindJid == old(s.BindJid)
+//@   ensures [C03.bind.once]   count(Write) <= old(count(Write)) + 1 && count(Decoded) <= old(count(Decoded)) + 1
+//@   ensures [C03.bind.ok]     (old(s.err) == nil && s.err == nil) ==> count(Write) == old(count(Write)) + 1 && last(Write, 2) && count(Decoded) == old(count(Decoded)) + 1 && last(Decoded, 1) && typeof(last(Decoded, 0)) == *stanza.IQ && atlast(Write) < atlast(Decoded)
+//@   ensures [C03.bind.result] (old(s.err) == nil && s.err == nil) ==> last(Decoded, 0).(*stanza.IQ).Type == "result" && typeof(last(Decoded, 0).(*stanza.IQ).Payload) == *stanza.Bind
+//@   ensures s.transport == old(s.transport) && s.Features == old(s.Features) && smStateKept(s)
+//@   assigns s.err, s.BindJid, s.lastPacketId
+//@   emits Write, Decoded, Marshaled
+//
+//@ func (*xmpp.Session).rfc3921Session(s)
+//@   requires s != nil && s.transport != nil
+//@   emit SessionOpened(s) when old(s.err) == nil && s.err == nil && !old(stanza.sessionOptional(s.Features))
+//@   ensures [C03.sticky.session]  old(s.err) != nil ==> stepSkipped(s)
+//@   ensures [C03.session.skip]    (old(s.err) == nil && old(stanza.sessionOptional(s.Features))) ==> stepSkipped(s)
+//@   ensures [C03.session.once]    count(Write) <= old(count(Write)) + 1 && count(Decoded) <= old(count(Decoded)) + 1
+//@   ensures [C03.session.ok]      (old(s.err) == nil && s.err == nil && !old(stanza.sessionOptional(s.Features))) ==> count(Write) == old(count(Write)) + 1 && last(Write, 2) && count(Decoded) == old(count(Decoded)) + 1 && last(Decoded, 1) && atlast(Write) < atlast(Decoded)
+//@   ensures [C03.session.result]  (old(s.err) == nil && s.err == nil && !old(stanza.sessionOptional(s.Features))) ==> typeof(last(Decoded, 0)) == *stanza.IQ && last(Decoded, 0).(*stanza.IQ).Type == "result"
+//@   ensures s.transport == old(s.transport) && s.Features == old(s.Features) && smStateKept(s) && s.BindJid == old(s.BindJid)
+//@   assigns s.err, s.lastPacketId
+//@   emits Write, Decoded, Marshaled
